@@ -878,7 +878,7 @@ def adapter_delete_discipline(ctx, rule):
                 if caught and all(x.rsplit('.', 1)[-1] == 'FileNotFoundError' for x in caught):
                     continue
                 gone_edges = []
-                for i in [x for x in ast.walk(h) if isinstance(x, ast.If)]:
+                for i in [x for x in walk_local(d.node) if isinstance(x, ast.If)]:
                     consts = {x.value for x in ast.walk(i.test) if isinstance(x, ast.Constant)} | {x.attr for x in ast.walk(i.test) if isinstance(x, ast.Attribute)}
                     if consts & GONE:
                         gone_edges += cfg.nodes_of(i, 'true')
